@@ -311,8 +311,7 @@ def decVar (env : Env) : Nat → Nat → Bool → Ty → Val → RM Val
                   | _ => []
                 match readSlice8 oldBytes len r3 with
                 | (.error er, r') => (.error er, r')
-                | (.ok bs, r4) =>
-                  if len ≤ 0 then (.ok old, r4) else (.ok (.list (bytesToVals (e = .i8) bs)), r4)
+                | (.ok bs, r4) => (.ok (.list (bytesToVals (e = .i8) bs)), r4)
           else (.error .mismatch, r1)
         else (.error .mismatch, r1)
     | .arr n e =>
